@@ -510,8 +510,9 @@ class ADEV(Pytree):
             # This jaxpr is continued by `final_kont` (e.g. the code after a cond whose
             # branch this is): the value of the pure continuation is the primal of that
             # continuation, as in the lane-wise estimators.
-            (out,) = outs
-            return [Dual.tree_primal(final_kont(Dual(out, _zero_tangent_like(out))))]
+            out_duals = [Dual(out, _zero_tangent_like(out)) for out in outs]
+            out_dual = out_duals[0] if len(out_duals) == 1 else out_duals
+            return [Dual.tree_primal(final_kont(out_dual))]
 
         # Dual evaluation.
         def eval_jaxpr_iterate_dual(
@@ -686,9 +687,13 @@ class ADEV(Pytree):
                     eqn.outvars,
                     Dual.dual_tree(primal_outs, tangent_outs),
                 )
-            (out_dual,) = jax_util.safe_map(dual_env.read, jaxpr.outvars)
-            if not isinstance(out_dual, Dual):
-                out_dual = Dual(out_dual, _zero_tangent_like(out_dual))
+            out_duals = [
+                d if isinstance(d, Dual) else Dual(d, _zero_tangent_like(d))
+                for d in jax_util.safe_map(dual_env.read, jaxpr.outvars)
+            ]
+            # A jaxpr with one output hands it on as such, one with several (a cond
+            # branch returning a tuple) as a list.
+            out_dual = out_duals[0] if len(out_duals) == 1 else out_duals
             # Continuation-passing: whatever follows this jaxpr is applied here, inside the
             # continuation of every stochastic site, not to the site's averaged result.
             return out_dual if final_kont is None else final_kont(out_dual)
